@@ -16,6 +16,7 @@ package interp
 // interface value in the Value's first word.
 
 import (
+	"fmt"
 	"go/token"
 	"go/types"
 )
@@ -141,5 +142,203 @@ func init() {
 		*s = n
 		ex(fr).release(s, 'a')
 		return true
+	}
+}
+
+// sort.Slice / sort.SliceStable / sort.SliceIsSorted reach the slice through
+// reflection (reflectlite.Swapper), which the boxed-value interpreter cannot
+// follow. They are a stable insertion sort over the boxed slice whose
+// comparisons call the target's `less` closure; a symbolic comparison result
+// is an ordinary symbolic decision (each resulting order is its own path).
+func init() {
+	sortSlice := func(fr *frame, args []value) value {
+		x, _ := args[0].(iface)
+		s, ok := x.v.([]value)
+		if !ok {
+			if x.t == nil {
+				panic("target:reflect: call of Swapper on zero Value")
+			}
+			panic(engineUnsupported{fmt.Sprintf("sort.Slice over %T", x.v)})
+		}
+		less := func(i, j int) bool {
+			return ex(fr).branch(call(fr.i, fr, token.NoPos, args[1], []value{i, j}))
+		}
+		for i := 1; i < len(s); i++ {
+			for j := i; j > 0 && less(j, j-1); j-- {
+				s[j], s[j-1] = s[j-1], s[j]
+			}
+		}
+		return nil
+	}
+	externals["sort.Slice"] = sortSlice
+	externals["sort.SliceStable"] = sortSlice
+	externals["sort.SliceIsSorted"] = func(fr *frame, args []value) value {
+		x, _ := args[0].(iface)
+		s, ok := x.v.([]value)
+		if !ok {
+			panic(engineUnsupported{fmt.Sprintf("sort.SliceIsSorted over %T", x.v)})
+		}
+		for i := len(s) - 1; i > 0; i-- {
+			if ex(fr).branch(call(fr.i, fr, token.NoPos, args[1], []value{i, i - 1})) {
+				return false
+			}
+		}
+		return true
+	}
+}
+
+// strings.Compare bottoms out in an assembly routine; with symbolic operands
+// the three outcomes are symbolic decisions.
+func init() {
+	cmp := func(fr *frame, args []value) value {
+		if ex(fr).branch(binop(token.LSS, nil, args[0], args[1])) {
+			return -1
+		}
+		if ex(fr).branch(binop(token.EQL, nil, args[0], args[1])) {
+			return 0
+		}
+		return 1
+	}
+	externals["strings.Compare"] = cmp
+	externals["internal/bytealg.CompareString"] = cmp
+}
+
+// evanphx/json-patch looks at the first non-blank byte of a document to tell an
+// array from an object; for a JSON token of the executor (an opaque symbolic
+// string standing for a known tree) the answer is read off the tree.
+func init() {
+	resembles := func(fr *frame, args []value) value {
+		switch d := args[0].(type) {
+		case symbytes:
+			tok := ex(fr).findToken(d.term)
+			if tok == nil {
+				panic(engineUnsupported{"resemblesJSONArray over a symbolic string that is no JSON token"})
+			}
+			_, isList := tok.tree.([]value)
+			return isList
+		case []value:
+			for _, b := range d {
+				c, ok := b.(byte)
+				if !ok {
+					panic(engineUnsupported{"resemblesJSONArray over symbolic bytes"})
+				}
+				if c == ' ' || c == '\t' || c == '\n' || c == '\r' {
+					continue
+				}
+				return c == '['
+			}
+			return false
+		}
+		return false
+	}
+	externals["github.com/evanphx/json-patch/v5.resemblesJSONArray"] = resembles
+	externals["gopkg.in/evanphx/json-patch.v4.resemblesJSONArray"] = resembles
+}
+
+// jp.CreateMergePatch(original, modified) over two JSON tokens: the RFC 7386
+// difference of the two known trees, returned as a new token. (The library
+// decodes with a private fork of encoding/json that scans bytes, which an
+// opaque token does not have.) Equality of symbolic leaves is a symbolic
+// decision. Arrays are replaced as a whole, as in the library.
+func init() {
+	var diff func(e *Explorer, a, b *hashmap) *hashmap
+	diff = func(e *Explorer, a, b *hashmap) *hashmap {
+		out := &hashmap{ex: e, keyType: b.keyType}
+		for _, en := range b.ents {
+			i := a.find(en.key)
+			if i < 0 {
+				out.insert(en.key, en.value)
+				continue
+			}
+			av := a.ents[i].value
+			am, aIsMap := av.(*hashmap)
+			bm, bIsMap := en.value.(*hashmap)
+			if aIsMap && bIsMap {
+				if d := diff(e, am, bm); d.len() > 0 {
+					out.insert(en.key, d)
+				}
+				continue
+			}
+			if !e.branch(jsonEq(e, av, en.value)) {
+				out.insert(en.key, en.value)
+			}
+		}
+		for _, en := range a.ents {
+			if b.find(en.key) < 0 {
+				out.insert(en.key, jnull{})
+			}
+		}
+		return out
+	}
+	externals["github.com/evanphx/json-patch/v5.CreateMergePatch"] = func(fr *frame, args []value) value {
+		e := ex(fr)
+		tree := func(v value) (value, bool) {
+			sb, ok := v.(symbytes)
+			if !ok {
+				return nil, false
+			}
+			tok := e.findToken(sb.term)
+			if tok == nil {
+				return nil, false
+			}
+			return tok.tree, true
+		}
+		a, okA := tree(args[0])
+		b, okB := tree(args[1])
+		if !okA || !okB {
+			panic(engineUnsupported{"CreateMergePatch over bytes that are no JSON tokens"})
+		}
+		am, aIsMap := a.(*hashmap)
+		bm, bIsMap := b.(*hashmap)
+		if !aIsMap || !bIsMap {
+			panic(engineUnsupported{"CreateMergePatch over documents that are not objects"})
+		}
+		tok := e.newJSONToken(diff(e, am, bm))
+		return tuple{symbytes{tok.term}, iface{}}
+	}
+}
+
+// internal/reflectlite is used by context.WithValue ("is the key comparable?")
+// and by a few String methods; its Type is backed by the runtime's type
+// descriptors, which boxed values do not have. TypeOf hands out a stand-in that
+// carries the go/types type; the handful of methods needed are answered from it.
+type rliteType struct{ t types.Type }
+
+func init() {
+	externals["internal/reflectlite.TypeOf"] = func(fr *frame, args []value) value {
+		itf, _ := args[0].(iface)
+		if itf.t == nil {
+			return iface{}
+		}
+		pkg := fr.i.prog.ImportedPackage("internal/reflectlite")
+		if pkg == nil || pkg.Type("rtype") == nil {
+			panic(engineUnsupported{"internal/reflectlite.rtype not in the program"})
+		}
+		return iface{t: pkg.Type("rtype").Type(), v: rliteType{itf.t}}
+	}
+	recv := func(v value) types.Type {
+		r, ok := v.(rliteType)
+		if !ok {
+			panic(engineUnsupported{fmt.Sprintf("reflectlite method on %T", v)})
+		}
+		return r.t
+	}
+	externals["(internal/reflectlite.rtype).Comparable"] = func(fr *frame, args []value) value {
+		return types.Comparable(recv(args[0]))
+	}
+	externals["(internal/reflectlite.rtype).String"] = func(fr *frame, args []value) value {
+		return recv(args[0]).String()
+	}
+	externals["(internal/reflectlite.rtype).Name"] = func(fr *frame, args []value) value {
+		if n, ok := recv(args[0]).(*types.Named); ok {
+			return n.Obj().Name()
+		}
+		return ""
+	}
+	externals["(internal/reflectlite.rtype).PkgPath"] = func(fr *frame, args []value) value {
+		if n, ok := recv(args[0]).(*types.Named); ok && n.Obj().Pkg() != nil {
+			return n.Obj().Pkg().Path()
+		}
+		return ""
 	}
 }
